@@ -400,3 +400,7 @@ def run(ck: Check, repo: Repo) -> None:
     rule_builder(ck, repo)
     rule_merge(ck, repo)
     rule_get_year(ck, repo)
+    # merging happens only with the notices of the header that was FOUND: the finder's predicate must cover every
+    # notice style the builder can write (shared with C10-R6)
+    from . import c10
+    c10.rule_finder_predicate(ck, repo, "R5")
